@@ -10,7 +10,11 @@ import logging
 import time
 
 from xknx.cemi import CEMILData
-from xknx.exceptions import DataSecureError
+from xknx.exceptions import (
+    ConversionError,
+    DataSecureError,
+    UnsupportedAPCIService,
+)
 from xknx.telegram.address import GroupAddress, IndividualAddress
 from xknx.telegram.apci import APCI, SecureAPDU
 
@@ -215,7 +219,20 @@ class DataSecure:
                 frame_format=cemi_data.flags.frame_format,
                 tpci=cemi_data.tpci,
             )
-        decrypted_payload = APCI.from_knx(plain_apdu_raw)
+        try:
+            decrypted_payload = APCI.from_knx(plain_apdu_raw)
+        except UnsupportedAPCIService as err:
+            # authentic, but a service xknx does not implement - to be ignored
+            raise DataSecureError(
+                f"Secured APDU not supported: {err.description} in {cemi_data}",
+                log_level=logging.INFO,
+            ) from err
+        except ConversionError as err:
+            # authentic, but malformed content - must not escape the receive path
+            raise DataSecureError(
+                f"Secured APDU invalid: {err.description} in {cemi_data}",
+                log_level=logging.WARNING,
+            ) from err
         _LOGGER.debug("Unpacked APDU %s from %s", decrypted_payload, s_apdu)
 
         plain_cemi_data = copy(cemi_data)
